@@ -315,6 +315,7 @@ impl<'ast> Visit<'ast> for Cells {
 /// the two public entry points of `impl Linter` (src/linter.rs): every call made in the body, in source order, and the
 /// argument expressions handed to `lint_inner`
 struct Entry {
+  want: Vec<String>,
   cur: Option<String>,
   calls: Vec<(String, Vec<String>)>,
   inner_args: Vec<(String, Vec<String>)>,
@@ -322,10 +323,19 @@ struct Entry {
 impl<'ast> Visit<'ast> for Entry {
   fn visit_impl_item_fn(&mut self, n: &'ast syn::ImplItemFn) {
     let name = n.sig.ident.to_string();
-    if name == "lint_file" || name == "lint_with_ast" {
+    if self.want.contains(&name) {
       self.cur = Some(name.clone());
       self.calls.push((name, vec![]));
       syn::visit::visit_impl_item_fn(self, n);
+      self.cur = None;
+    }
+  }
+  fn visit_item_fn(&mut self, n: &'ast syn::ItemFn) {
+    let name = n.sig.ident.to_string();
+    if self.want.contains(&name) {
+      self.cur = Some(name.clone());
+      self.calls.push((name, vec![]));
+      syn::visit::visit_item_fn(self, n);
       self.cur = None;
     }
   }
@@ -497,7 +507,14 @@ fn main() {
   let mut statics = Statics { file: String::new(), rows: vec![] };
   let mut psites = PanicSites { file: String::new(), cur_fn: vec![], rows: Default::default() };
   let mut rstructs = RuleStructs { file: String::new(), structs: Default::default(), impls: vec![], rows: vec![], site: vec![], regexes: vec![] };
-  let mut entry = Entry { cur: None, calls: vec![], inner_args: vec![] };
+  let mut entry = Entry { want: vec!["lint_file".into(), "lint_with_ast".into()], cur: None, calls: vec![], inner_args: vec![] };
+  let mut dlint = Entry { want: vec!["run_linter".into()], cur: None, calls: vec![], inner_args: vec![] };
+  {
+    let p = format!("{}/examples/dlint/main.rs", repo);
+    let src = std::fs::read_to_string(&p).unwrap();
+    let f = syn::parse_file(&src).unwrap_or_else(|e| panic!("parse {}: {}", p, e));
+    dlint.visit_file(&f);
+  }
   let mut cells = Cells { file: String::new(), site: vec![], rows: vec![] };
   for p in &files {
     let src = std::fs::read_to_string(p).unwrap();
@@ -577,6 +594,15 @@ fn main() {
     t.push_str(&rows.join(",\n"));
     t.push_str("\n]\n\nend DL.Gen\n");
     write_if_changed(&format!("{}/RuleStructs.lean", out), &t);
+  }
+  {
+    // dlint's `run_linter`: the calls that make up its collection / reporting logic, in source order (receivers dropped)
+    let keep = ["par_iter", "for_each", "try_for_each", "par_chunks", "read_to_string", "lint_file", "fetch_add", "store", "load", "lock", "insert", "pop_first", "values", "display_diagnostics", "exit", "dedup", "sort", "canonicalize", "fetch_max", "swap"];
+    let calls: Vec<String> = dlint.calls.iter().flat_map(|(_, c)| c.iter()).map(|c| c.rsplit(|ch| ch == '.' || ch == ':').next().unwrap_or("").to_string()).filter(|m| keep.contains(&m.as_str()) || m.ends_with('!')).collect();
+    let mut t = String::from("/-! GENERATED by harness/src/bin/translate2.rs (syn): the calls of `run_linter` (examples/dlint/main.rs) that make up its\ncollection and reporting logic, in source order (macros as `name!`). -/\nnamespace DL.Gen\n\ndef dlintCalls : List String := [");
+    t.push_str(&calls.iter().map(|x| lean_str(x)).collect::<Vec<_>>().join(", "));
+    t.push_str("]\n\nend DL.Gen\n");
+    write_if_changed(&format!("{}/DlintShape.lean", out), &t);
   }
   let mut s = String::from("/-! GENERATED by harness/src/bin/translate2.rs (syn): every `visit_*` override of every `impl Visit for` in src/, with\nwhether each path through it recurses into the node's children (`always`), some traversal call exists (`sometimes`), or none (`never`). -/\nnamespace DL.Gen\n\n/-- (file, visitor type, method, class) for the overrides that do **not** always recurse -/\ndef visitNotAlways : List (String × String × String × String) := [\n");
   let rows: Vec<String> = v.rows.iter().filter(|r| r.3 != "always").map(|(a, b, c, d)| format!("  ({}, {}, {}, {})", lean_str(a), lean_str(b), lean_str(c), lean_str(d))).collect();
